@@ -205,4 +205,18 @@ theorem nobody_relies_on_the_remembered_position : GoNfsd.Gen.Skeleton.flushCall
 
 end objlog
 
+/-! ### what recovery rebuilds the allocators from is what the transactions committed -/
+
+/-- After a crash the allocators are rebuilt from the bitmaps of the logical disk (6a36d18), so a
+    committed allocation must be IN the bitmap: bitmap updates reach the journal as single bits,
+    each owned by the transaction that holds the number.  A wider object (a bitmap byte: eight
+    numbers, up to eight transactions) is merged by the journal with the stale bits of whoever
+    commits next to it; the allocators in memory hide the lost bit until the restart, after which
+    a block holding acknowledged data is handed out again.  Table regenerated from the source on
+    every run (`Props/C10.journal_objects_have_the_granularity_of_their_locks` has all objects). -/
+theorem committed_allocations_reach_the_bitmap_as_single_bits :
+    ∀ e ∈ GoNfsd.Gen.Skeleton.journalObjects, e.1 = "alloctxn.WriteBits" → e.2.1 = "OverWrite" ∧ e.2.2 = "1" := by decide
+
+example : ("alloctxn.WriteBits", "OverWrite", "1") ∈ GoNfsd.Gen.Skeleton.journalObjects := by decide
+
 end GoNfsd.Props.C01
